@@ -8,7 +8,7 @@ def run (j : Json) : Except String Json := do
   if outOfDomain mres then
     return Json.mkObj [("skip", true), ("why", "outside the modelled domain")]
   let mlogJ := mlog.map evToJson
-  let logAgree := (Json.arr mlogJ.toArray).compress == (Json.arr c.implLog.toArray).compress
+  let logAgree := logText mlogJ == logText c.implLog
   let agree := resEq mres c.implRes && logAgree
   -- the composition law re-evaluated on the implementation itself (harness: compose())
   let composeOK := (j.getObjValAs? Bool "impl_compose_ok").toOption.getD true
